@@ -67,9 +67,71 @@ Section Parse.
   Definition dec_oid' (t : tlv) : option (list N) :=
     match t with Prim Univ 6 c => oid_of_content c | _ => None end.
 
-  (* Go's asn1 on the two optional, explicitly tagged members of ECPrivateKey: an element tagged [0] (resp. [1]) whose first inner
-     element is a universal OBJECT IDENTIFIER (resp. BIT STRING) must hold a well-formed one; an empty explicit tag is an error;
-     anything else is skipped, and elements that follow are ignored *)
+  (* ---- encoding/asn1 as gopki uses it here.  Unmarshal is directed by the Go struct, not by the nesting of the input:
+     it reads the header of each member in turn, checks class/tag/constructed bit against what the member's type expects,
+     bounds a member's content by the enclosing SEQUENCE only, never looks at bytes that follow the last member it knows
+     (inside the SEQUENCE or after it), and for an optional member whose tag does not match leaves the member unset and
+     continues at the same offset.  The three functions below transcribe parseTagAndLength and parseField for the member
+     kinds that occur in pkcs8, pkix.AlgorithmIdentifier and ecPrivateKey. *)
+
+  (* parseTagAndLength: identifier and length octets.  (The high-tag-number form, identifier octet xxx11111, is parsed by
+     Go as well; no member here expects such a tag and the model treats it as an error - the correspondence streams do not
+     produce it.)  Lengths of 2^31 and more are "length too large". *)
+  Definition go_hdr (bs : bytes) : option (cls * bool * N * N * bytes) :=
+    match bs with
+    | [] => None
+    | i :: r => match dec_ident i with
+                | None => None
+                | Some (c, k, t) => match dec_len r with
+                                    | Some (n, r2) => if n <? 2147483648 then Some (c, k, t, n, r2) else None
+                                    | None => None
+                                    end
+                end
+    end.
+
+  Definition is_univ (c : cls) : bool := match c with Univ => true | _ => false end.
+  Definition is_ctx (c : cls) : bool := match c with Ctx => true | _ => false end.
+
+  (* a required member of universal type [t] (constructed or not as the type demands): content and what follows it *)
+  Definition go_req (t : N) (cons : bool) (bs : bytes) : option (bytes * bytes) :=
+    match go_hdr bs with
+    | Some (c, k, t', n, r) => if is_univ c && (t' =? t) && Bool.eqb k cons then take_n n r else None
+    | None => None
+    end.
+
+  (* an optional member `explicit,tag:N` of primitive universal type [ut] *)
+  Inductive opt_res := OAbsent | OErr | OPresent (content rest : bytes).
+  Definition go_opt_explicit (tag ut : N) (bs : bytes) : opt_res :=
+    match bs with
+    | [] => OAbsent                                            (* no data left: the default value *)
+    | _ =>
+      match go_hdr bs with
+      | None => OErr
+      | Some (c, k, t, n, r) =>
+        match r with
+        | [] => OErr                                           (* "explicit tag has no child", whatever the tag *)
+        | _ =>
+          if is_ctx c && (t =? tag) && ((n =? 0) || k) then
+            if n =? 0 then OErr                                (* "zero length explicit tag was not an asn1.Flag" *)
+            else match go_hdr r with                           (* the wrapper's own length is not looked at again *)
+                 | None => OErr
+                 | Some (c', k', t', n', r') =>
+                   if is_univ c' && (t' =? ut) && negb k'
+                   then match take_n n' r' with                (* bounded by the enclosing SEQUENCE only *)
+                        | Some (v, rest) => OPresent v rest
+                        | None => OErr
+                        end
+                   else OAbsent                                (* inner tag differs: member unset, offset rewound *)
+                 end
+          else OAbsent
+        end
+      end
+    end.
+
+  (* parseInt64 for an `int` member: minimal two's complement of at most eight octets *)
+  Definition go_int (v : bytes) : option Z := if Nat.leb (length v) 8 then int_of_content v else None.
+
+  (* parseBitString / parseObjectIdentifier *)
   Definition go_bits_ok (v : bytes) : bool :=
     match v with
     | [] => false
@@ -82,74 +144,131 @@ Section Parse.
     | Some (v :: r) => forallb (fun a => a <=? 2147483647) (v :: r)
     | _ => false
     end.
-  Definition opt_fields_ok (rest : list tlv) : bool :=
-    let after0 := match rest with
-                  | Cons Ctx 0 [] :: _ => None
-                  | Cons Ctx 0 (Prim Univ 6 c :: _) :: r => if go_oid_ok c then Some r else None
-                  | _ => Some rest
-                  end in
-    match after0 with
-    | None => false
-    | Some (Cons Ctx 1 [] :: _) => false
-    | Some (Cons Ctx 1 (Prim Univ 3 v :: _) :: _) => go_bits_ok v
-    | Some _ => true
-    end.
+  Definition go_oid (c : bytes) : option (list N) := if go_oid_ok c then oid_of_content c else None.
 
-  (* asn1.Unmarshal returns trailing bytes instead of rejecting them, and the callers (as in crypto/x509) drop them *)
-  Definition parse_ec_private_key (outer_curve : option keyalg) (b : bytes) : option privkey :=
-    match parse b with
-    | Some (Cons Univ 16 (Prim Univ 2 v :: Prim Univ 4 sc :: rest), _) =>
-      match int_of_content v with
-      | Some 1%Z =>
-        if negb (opt_fields_ok rest) then None else
-        let inner_curve :=
-            match rest with
-            | Cons Ctx 0 [o] :: _ => match dec_oid' o with Some co => curve_of_oid co | None => None end
-            | _ => None
-            end in
-        match (match outer_curve with Some c => Some c | None => inner_curve end) with
+  (* asn1.Unmarshal(der, &ecPrivateKey{}): version, scalar octets, the curve of an inner [0] if there is one *)
+  Definition go_ec_struct (b : bytes) : option (Z * bytes * option (list N)) :=
+    match go_req 16 true b with
+    | None => None
+    | Some (content, _) =>                                     (* bytes after the SEQUENCE are returned as "rest" and dropped *)
+      match go_req 2 false content with
+      | None => None
+      | Some (v, c1) =>
+        match go_int v with
         | None => None
-        | Some c =>
-          let d := be_value sc in
-          match scalar_width c with
+        | Some ver =>
+          match go_req 4 false c1 with
           | None => None
-          | Some w =>
-            (* longer than the field width is tolerated only as leading zeros *)
-            if (d <? order c) && (Nat.leb (length sc) w || (be_value (firstn (length sc - w) sc) =? 0))
-            then Some (KEc c d (base_mult c d)) else None
+          | Some (sc, c2) =>
+            let after0 := match go_opt_explicit 0 6 c2 with
+                          | OErr => None
+                          | OAbsent => Some (None, c2)
+                          | OPresent o rest => match go_oid o with Some a => Some (Some a, rest) | None => None end
+                          end in
+            match after0 with
+            | None => None
+            | Some (curve, c3) =>
+              match go_opt_explicit 1 3 c3 with
+              | OErr => None
+              | OAbsent => Some (ver, sc, curve)
+              | OPresent v1 _ => if go_bits_ok v1 then Some (ver, sc, curve) else None
+              end
+            end
           end
         end
-      | _ => None
+      end
+    end.
+
+  Definition parse_ec_private_key (outer_curve : option (list N)) (b : bytes) : option privkey :=
+    match go_ec_struct b with
+    | Some (1%Z, sc, inner) =>
+      (* namedCurveFromOID of the outer identifier when the PKCS#8 parameters held one, else of the inner one *)
+      match (match outer_curve with Some o => curve_of_oid o
+                               | None => match inner with Some o => curve_of_oid o | None => None end end) with
+      | None => None
+      | Some c =>
+        let d := be_value sc in
+        match scalar_width c with
+        | None => None
+        | Some w =>
+          (* a private key is a number from 1 to order - 1; longer than the field width is tolerated only as leading zeros *)
+          if (0 <? d) && (d <? order c) && (Nat.leb (length sc) w || (be_value (firstn (length sc - w) sc) =? 0))
+          then Some (KEc c d (base_mult c d)) else None
+        end
       end
     | _ => None
+    end.
+
+  (* asn1.Unmarshal(der, &pkcs8{}): algorithm identifier, its parameters as a raw element (header and content), key octets *)
+  Definition go_pkcs8_struct (b : bytes) : option (list N * bytes * bytes) :=
+    match go_req 16 true b with
+    | None => None
+    | Some (content, _) =>
+      match go_req 2 false content with
+      | None => None
+      | Some (v, c1) =>
+        match go_int v with
+        | None => None
+        | Some _ =>                                            (* the version is not looked at *)
+          match go_req 16 true c1 with
+          | None => None
+          | Some (alg, c2) =>
+            match go_req 6 false alg with
+            | None => None
+            | Some (oc, a1) =>
+              match go_oid oc with
+              | None => None
+              | Some a =>
+                let params := match a1 with
+                              | [] => Some []                  (* optional RawValue: absent *)
+                              | _ => match go_hdr a1 with
+                                     | Some (_, _, _, n, r) =>
+                                       match take_n n r with
+                                       | Some (_, rest) => Some (firstn (length a1 - length rest) a1)
+                                       | None => None
+                                       end
+                                     | None => None
+                                     end
+                              end in
+                match params with
+                | None => None
+                | Some full =>
+                  match go_req 4 false c2 with
+                  | Some (body, _) => Some (a, full, body)
+                  | None => None
+                  end
+                end
+              end
+            end
+          end
+        end
+      end
     end.
 
   Definition parse_pkcs8 (b : bytes) : option privkey :=
-    match parse b with
-    | Some (Cons Univ 16 [Prim Univ 2 v; Cons Univ 16 (alg :: params); Prim Univ 4 body], _) =>
-      match dec_oid' alg with
-      | Some a =>
-        if oid_eqb a oid_rsa_encryption then
-          match parse_all body with
-          | Some (Cons Univ 16 (ver :: ints)) =>
-            match map_opt (fun t => match t with Prim Univ 2 c => int_of_content c | _ => None end) (ver :: ints) with
-            | Some [0%Z; n; e; d; p; q; dp; dq; qinv] =>
-              if forallb (fun z => (0 <=? z)%Z) [n; e; d; p; q; dp; dq; qinv]
-              then Some (KRsa (Z.to_N n) (Z.to_N e) (Z.to_N d) (Z.to_N p) (Z.to_N q) (Z.to_N dp) (Z.to_N dq) (Z.to_N qinv))
-              else None
-            | _ => None
-            end
+    match go_pkcs8_struct b with
+    | None => None
+    | Some (a, params, body) =>
+      if oid_eqb a oid_rsa_encryption then
+        (* x509.ParsePKCS1PrivateKey: the modelled part is the strict structure and the sign checks *)
+        match parse_all body with
+        | Some (Cons Univ 16 (ver :: ints)) =>
+          match map_opt (fun t => match t with Prim Univ 2 c => int_of_content c | _ => None end) (ver :: ints) with
+          | Some [0%Z; n; e; d; p; q; dp; dq; qinv] =>
+            if forallb (fun z => (0 <=? z)%Z) [n; e; d; p; q; dp; dq; qinv]
+            then Some (KRsa (Z.to_N n) (Z.to_N e) (Z.to_N d) (Z.to_N p) (Z.to_N q) (Z.to_N dp) (Z.to_N dq) (Z.to_N qinv))
+            else None
           | _ => None
           end
-        else if oid_eqb a oid_ec_public_key then
-          let outer := match params with
-                       | [p] => match dec_oid' p with Some co => curve_of_oid co | None => None end
-                       | _ => None
-                       end in
-          parse_ec_private_key outer body
-        else None
-      | None => None
-      end
-    | _ => None
+        | _ => None
+        end
+      else if oid_eqb a oid_ec_public_key then
+        (* asn1.Unmarshal(params.FullBytes, new(ObjectIdentifier)); on any error the inner identifier is used *)
+        let outer := match go_req 6 false params with
+                     | Some (oc, _) => go_oid oc
+                     | None => None
+                     end in
+        parse_ec_private_key outer body
+      else None
     end.
 End Parse.
